@@ -1,6 +1,7 @@
 package main
 
 import (
+	"strings"
 	"encoding/hex"
 	"fmt"
 	"math"
@@ -231,11 +232,29 @@ func genC18(r *Rng, e *Emitter, n int) {
 		} else {
 			opts = []geojson.EncodeGeometryOption{geojson.EncodeGeometryWithMaxDecimalDigits(d)}
 		}
+		withCRS := false
+		if r.chance(1, 3) {
+			withCRS = true
+			// a third option (a CRS member for the document) in any position among the others
+			crsOpt := geojson.EncodeGeometryWithCRS(&geojson.CRS{Type: "name", Properties: map[string]interface{}{"name": "EPSG:4326"}})
+			k := r.Intn(len(opts) + 1)
+			opts = append(opts[:k:k], append([]geojson.EncodeGeometryOption{crsOpt}, opts[k:]...)...)
+			e.tally(fmt.Sprintf("crs-option-at=%d-of-%d", k, len(opts)))
+		}
 		e.tally("format=geojson")
 		e.emit("C18.geojson", fmt.Sprintf("(%d %s %d %s)", d, bb, order, t.sx()), guard(func() string {
 			b, err := geojson.Marshal(g, opts...)
 			if err != nil {
 				return "(err other)"
+			}
+			if withCRS {
+				// the member the third option asked for is there, once; it is no concern of this
+				// property and is taken out of the document before the document is judged
+				const member = `"crs":{"type":"name","properties":{"name":"EPSG:4326"}},`
+				if strings.Count(string(b), member) != 1 {
+					return "(crs-member-lost " + hex.EncodeToString(b) + ")"
+				}
+				b = []byte(strings.Replace(string(b), member, "", 1))
 			}
 			// the document must still be one the library's own decoder reads, with the same parts
 			var g2, gp geom.T
